@@ -129,6 +129,13 @@ fn seq_oracle() -> SeqOracle {
         if moved % run.setup.buffer as u64 != 0 {
             out.push(crate::harness::seq::Finding::new("whole-buffers", "access:partial-buffer-delivered", format!("AccessAdded+AccessDropped moved by {} with buffer size {}", moved, run.setup.buffer)));
         }
+        // a record counted as added has reached the sketch: the sketch's position in its ageing window is the number of
+        // added records modulo the window length (nothing was dropped in these histories unless the counter says so)
+        let n = run.setup.counters;
+        let ok = |o: &Obs| o.lfu_total_increments == o.stats[ACCESS_ADDED] % n;
+        if !ok(a) && ok(b) {
+            out.push(crate::harness::seq::Finding::new("added-but-not-applied", "access:added-record-not-applied-to-sketch", format!("after {}: {} records are counted as added (window length {}), so the sketch must stand at position {} of its window, but it stands at {}", run.calls[run.last()].op.short(), a.stats[ACCESS_ADDED], n, a.stats[ACCESS_ADDED] % n, a.lfu_total_increments)));
+        }
     })
 }
 
